@@ -80,7 +80,11 @@ Lemma load_footer_write_table es :
   (forall r, bf_decode (bf_encode (bloom_of es) ++ r) = Some (bloom_of es, r)) ->
   load_footer (reopen (write_table es)) = Some (bloom_of es, index_of es).
 Proof.
-  intros Hsz Hbf. unfold load_footer, reopen, write_table. cbn [t_size t_file].
+  intros Hsz Hbf.
+  change (reopen (write_table es)) with
+    (mkT (ser_table es) (blen (ser_table es)) (blen (ser_entries es)) (first_key es) (last_key es)
+         (first_seq es) (max_seq es) None).
+  unfold load_footer. cbn [t_size t_file].
   set (body := ser_entries es). set (bfb := bf_encode (bloom_of es)). set (ixb := idx_encode (index_of es)).
   assert (Hfile : ser_table es = (body ++ bfb ++ ixb) ++ (w_u64 (blen body) ++ w_u32 1)).
   { unfold ser_table. fold body bfb ixb. rewrite <- !app_assoc. reflexivity. }
